@@ -77,3 +77,30 @@ def concatenate(model, info, art):
     hi = max(d["indices"]["stop"] for d in docs)
     ok = (same and chains) and out["indices"] == {"start": lo, "stop": hi}
     return ("contradicted" if ok else "confirmed"), f"{docs} -> {out}"
+
+
+def int_replacer(model, info, art):
+    """build a real TIFF consolidator with the template and compare its file name with libc's sprintf"""
+    import ctypes
+    from bluesky.consolidators import TIFFConsolidator
+    from .common import string
+    flags = info["flags"]
+    width = string(model.get("width"), "") if info["has_w"] else ""
+    prec = string(model.get("precision"), "") if info["has_p"] else None
+    L = min(max(get(model, "L", "int", 1), 1), 15)
+    n = 10 ** (L - 1)
+    conv = "%" + flags + width + ("." + prec if prec is not None else "") + "d"
+    template = "img_" + conv + ".tif"
+    sres = {"mimetype": "multipart/related;type=image/tiff", "data_key": "img", "uri": "file://localhost/tmp/",
+            "parameters": {"template": template, "chunk_shape": (1,)}, "uid": "sr", "run_start": "rs"}
+    desc = {"data_keys": {"img": {"shape": [1, 4, 4], "dtype": "array", "dtype_numpy": "<u2", "source": "x", "external": "STREAM:"}}}
+    libc = ctypes.CDLL(None)
+    buf = ctypes.create_string_buffer(4096)
+    libc.sprintf(buf, template.encode(), ctypes.c_int(n))
+    want = "file://localhost/tmp/" + buf.value.decode()
+    try:
+        c = TIFFConsolidator(sres, desc)
+        got = c.get_datum_uri(n)
+    except Exception as e:
+        return "confirmed", f"template {template!r}, index {n}: {type(e).__name__}: {e} (printf gives {want!r})"
+    return ("contradicted" if got == want else "confirmed"), f"template {template!r}, index {n}: consolidator {got!r}, printf {want!r}"
